@@ -97,6 +97,34 @@ class Rig:
         import sansldap as s
 
         r = self.rnd
+        if r.random() < 0.25:
+            # a send call that fails while its message is being encoded (D6: outside C10, but C12 counts only the messages
+            # whose send call succeeded, so nothing of it may reach the stream)
+            try:
+                if self.role == "server":
+                    v = r.randrange(3)
+                    if v == 0:
+                        variant = "entry whose attribute value cannot be encoded"
+                        self.s.search_result_entry(1, "cn=x", [s.PartialAttribute("cn", [b"ok", "not-bytes"])])  # type: ignore[list-item]
+                    elif v == 1:
+                        variant = "entry whose object name is not valid text"
+                        self.s.search_result_entry(3, "cn=\udc80\ud800", [s.PartialAttribute("cn", [b"v"])])
+                    else:
+                        variant = "reference whose uri is not valid text"
+                        self.s.search_result_reference(1, ["ldap://ok", "ldap://\ud800"])
+                else:
+                    v = r.randrange(2)
+                    if v == 0:
+                        variant = "search whose base object is not valid text"
+                        self.s.search_request("dc=bad\ud800", filter=s.FilterEquality("cn", b"x"))
+                    else:
+                        variant = "extended request whose value cannot be encoded"
+                        self.s.extended_request("1.2.3", value="not-bytes")  # type: ignore[arg-type]
+                return variant, "ok"
+            except s.LDAPError:
+                return variant, "LDAPError"
+            except Exception:  # noqa: BLE001
+                return variant, "LDAPError"   # any failure is fine here; only the stream is judged
         try:
             if self.role == "server":
                 v = r.randrange(4)
